@@ -1,13 +1,16 @@
 (* Proofs about the DQE model (ModelDqe.v).  Labels: plain = proved in full, _partial = under a stated
    hypothesis (with a boolean decision procedure), _refuted = the full statement is false of the model,
-   with a concrete witness that is a candidate defect of the real debugger (see REPORT.md). *)
+   with a concrete witness.  `_old` remarks in comments record what the statement was before the repairs
+   of /repo (commits 99f406a, 90a0582, 0b2cb8c, 4188407). *)
 From BS Require Import Model.Base.
 From W Require Import ModelDqe.
 From Coq Require Import Lia.
 Open Scope N_scope.
 
 (* ================================================================================================ *)
-(** * 1. Numeric conversions: exact panic-free domain *)
+(** * 1. Numeric conversions are total: in range -> Ok, out of range -> rejected, never a panic
+    (_old: before commit 99f406a [conv_num_arg_panics] read `= Panic (num_arg_site k)`, with the bound as the
+    smallest panicking value for each of the twelve sites; `-9223372036854775808` panicked in debug builds) *)
 
 Theorem conv_num_arg_ok : forall k n, n < num_arg_bound k -> conv_num_arg k n = Ok n.
 Proof.
@@ -15,70 +18,66 @@ Proof.
   destruct (n <? num_arg_bound k) eqn:E; [reflexivity|]. apply N.ltb_ge in E. lia.
 Qed.
 
-Theorem conv_num_arg_panics : forall k n, num_arg_bound k <= n -> conv_num_arg k n = Panic (num_arg_site k).
+Theorem conv_num_arg_rejects : forall k n, num_arg_bound k <= n -> conv_num_arg k n = Err 0.
 Proof.
   intros k n H. unfold conv_num_arg, conv_bits.
   destruct (n <? num_arg_bound k) eqn:E; [|reflexivity]. apply N.ltb_lt in E. lia.
 Qed.
 
-(* full statement "no numeric argument panics" is false; the smallest witness is the bound itself *)
-Theorem conv_num_arg_no_panic_refuted : forall k,
-  exists n, conv_num_arg k n = Panic (num_arg_site k) /\ n = num_arg_bound k /\
-            forall m, m < n -> conv_num_arg k m = Ok m.
+Theorem conv_num_arg_total : forall k n, conv_num_arg k n = Ok n \/ conv_num_arg k n = Err 0.
 Proof.
-  intros k. exists (num_arg_bound k). split; [apply conv_num_arg_panics; lia|].
-  split; [reflexivity|]. intros m Hm. apply conv_num_arg_ok; exact Hm.
+  intros k n. destruct (N.lt_ge_cases n (num_arg_bound k)) as [H|H];
+    [left; apply conv_num_arg_ok; exact H|right; apply conv_num_arg_rejects; exact H].
 Qed.
+
+Theorem conv_num_arg_no_panic : forall k n, is_panic (conv_num_arg k n) = false.
+Proof. intros k n. destruct (conv_num_arg_total k n) as [H|H]; rewrite H; reflexivity. Qed.
 
 Lemma conv_u64_ok : forall s n, n < P64 -> conv_u64 s n = Ok n.
 Proof. intros s n H. unfold conv_u64, conv_bits. destruct (n <? P64) eqn:E; [reflexivity|]. apply N.ltb_ge in E. lia. Qed.
-Lemma conv_u64_panics : forall s n, P64 <= n -> conv_u64 s n = Panic s.
+Lemma conv_u64_rejects : forall s n, P64 <= n -> conv_u64 s n = Err 0.
 Proof. intros s n H. unfold conv_u64, conv_bits. destruct (n <? P64) eqn:E; [|reflexivity]. apply N.ltb_lt in E. lia. Qed.
+Lemma conv_u64_no_panic : forall s n, is_panic (conv_u64 s n) = false.
+Proof. intros s n. unfold conv_u64, conv_bits. destruct (n <? P64); reflexivity. Qed.
 
-(* a non-negative literal below 2^63 and a negative one above -2^63 mean what they say *)
+(* a non-negative literal below 2^63 and a negative one down to -2^63 mean what they say *)
 Theorem int_literal_pos : forall n, n < P63 -> int_literal false n = Ok (Z.of_N n).
 Proof.
   intros n H. unfold int_literal. rewrite conv_u64_ok by (unfold P63, P64 in *; lia).
   cbn [bind]. unfold as_i64. destruct (n <? P63) eqn:E; [reflexivity|]. apply N.ltb_ge in E. lia.
 Qed.
-Theorem int_literal_neg : forall n, n < P63 -> int_literal true n = Ok (- Z.of_N n)%Z.
+Theorem int_literal_neg : forall n, n <= P63 -> int_literal true n = Ok (- Z.of_N n)%Z.
 Proof.
   intros n H. unfold int_literal. rewrite conv_u64_ok by (unfold P63, P64 in *; lia).
-  cbn [bind]. unfold as_i64. destruct (n <? P63) eqn:E; [|apply N.ltb_ge in E; lia].
-  unfold neg_i64. destruct (Z.of_N n =? - Z.of_N P63)%Z eqn:E2; [|reflexivity].
-  apply Z.eqb_eq in E2. unfold P63 in *. lia.
+  cbn [bind]. unfold as_i64, neg_i64. destruct (n <? P63) eqn:E.
+  - destruct (Z.of_N n =? - Z.of_N P63)%Z eqn:E2; [|reflexivity].
+    apply Z.eqb_eq in E2. unfold P63 in *. lia.
+  - apply N.ltb_ge in E. assert (n = P63) by lia. subst n. reflexivity.
 Qed.
 
-(* exact panic domain of the `int` alternative *)
-Theorem int_literal_panics_iff : forall neg n,
-  is_panic (int_literal neg n) = true <-> (P64 <= n \/ (neg = true /\ n = P63)).
+(* the `int` alternative rejects exactly the numbers that do not fit u64, and never panics *)
+Theorem int_literal_rejects_iff : forall neg n, int_literal neg n = Err 0 <-> P64 <= n.
 Proof.
   intros neg n. unfold int_literal. destruct (N.lt_ge_cases n P64) as [Hlt|Hge].
-  - rewrite conv_u64_ok by exact Hlt. cbn [bind]. destruct neg.
-    + unfold neg_i64, as_i64. destruct (n <? P63) eqn:E.
-      * apply N.ltb_lt in E. destruct (Z.of_N n =? - Z.of_N P63)%Z eqn:E2.
-        { apply Z.eqb_eq in E2. unfold P63 in *. lia. }
-        cbn. split; [discriminate|]. intros [H|[_ H]]; unfold P63, P64 in *; lia.
-      * apply N.ltb_ge in E. destruct (Z.of_N n - Z.of_N P64 =? - Z.of_N P63)%Z eqn:E2.
-        { apply Z.eqb_eq in E2. cbn. split; [intros _|reflexivity]. right. split; [reflexivity|].
-          unfold P63, P64 in *. lia. }
-        apply Z.eqb_neq in E2. cbn. split; [discriminate|].
-        intros [H|[_ H]]; [lia|]. subst n. exfalso. apply E2. reflexivity.
-    + cbn. split; [discriminate|]. intros [H|[H _]]; [lia|discriminate].
-  - rewrite conv_u64_panics by exact Hge. cbn. split; [intros _; left; exact Hge|reflexivity].
+  - rewrite conv_u64_ok by exact Hlt. cbn [bind]. split; [|lia].
+    destruct neg; [unfold neg_i64; destruct (_ =? _)%Z|]; discriminate.
+  - rewrite conv_u64_rejects by exact Hge. split; [intros _; exact Hge|reflexivity].
+Qed.
+Theorem int_literal_no_panic : forall neg n, is_panic (int_literal neg n) = false.
+Proof.
+  intros neg n. unfold int_literal. destruct (N.lt_ge_cases n P64) as [Hlt|Hge].
+  - rewrite conv_u64_ok by exact Hlt. cbn [bind]. destruct neg; [unfold neg_i64; destruct (_ =? _)%Z|]; reflexivity.
+  - rewrite conv_u64_rejects by exact Hge. reflexivity.
 Qed.
 
-(* "the integer typed is the integer meant" fails from 2^63 on: 18446744073709551615 means -1 *)
+(* still true, by design (u64 keys are compared `as i64`): 18446744073709551615 means -1 *)
 Theorem int_literal_value_refuted :
   exists n, n < P64 /\ int_literal false n = Ok (-1)%Z /\ Z.of_N n <> (-1)%Z.
 Proof. exists 18446744073709551615. split; [reflexivity|]. split; [vm_compute; reflexivity|discriminate]. Qed.
 
-(* i64::MIN cannot be written with a minus sign: smallest |n| on which "-n" panics *)
-Theorem int_literal_neg_no_panic_refuted :
-  int_literal true P63 = Panic SITE_EXPR_NEG /\ forall n, n < P63 -> is_panic (int_literal true n) = false.
-Proof.
-  split; [vm_compute; reflexivity|]. intros n H. rewrite int_literal_neg by exact H. reflexivity.
-Qed.
+(* i64::MIN can now be written with a minus sign (wrapping negation) *)
+Theorem int_literal_i64_min : int_literal true P63 = Ok (- 9223372036854775808)%Z.
+Proof. vm_compute. reflexivity. Qed.
 
 (* ================================================================================================ *)
 (** * 2. Slices *)
@@ -97,72 +96,57 @@ Proof.
 Qed.
 
 Lemma slice_core : forall (items : list vtree) l r,
-  l <= N.of_nat (length items) -> l <= r ->
-  (if r - l <? N.of_nat (length (skipn (N.to_nat l) items))
-   then firstn (N.to_nat (r - l)) (skipn (N.to_nat l) items) else skipn (N.to_nat l) items)
+  let l' := N.min l (N.of_nat (length items)) in
+  (if r - l' <? N.of_nat (length (skipn (N.to_nat l') items))
+   then firstn (N.to_nat (r - l')) (skipn (N.to_nat l') items) else skipn (N.to_nat l') items)
   = spec_slice items l r.
 Proof.
-  intros items l r Hl Hr. unfold spec_slice. rewrite skipn_length.
+  intros items l r l'. unfold spec_slice. rewrite skipn_length.
   destruct (N.of_nat (length items) <=? l) eqn:E.
-  - apply N.leb_le in E. assert (l = N.of_nat (length items)) by lia. subst l.
+  - apply N.leb_le in E. assert (l' = N.of_nat (length items)) by (subst l'; lia). rewrite H.
     rewrite Nat2N.id. rewrite skipn_all. rewrite firstn_nil. destruct (_ <? _); reflexivity.
-  - apply N.leb_gt in E. destruct (r - l <? N.of_nat (length items - N.to_nat l)) eqn:E2.
+  - apply N.leb_gt in E. assert (l' = l) by (subst l'; lia). rewrite H.
+    destruct (r - l <? N.of_nat (length items - N.to_nat l)) eqn:E2.
     + apply N.ltb_lt in E2. f_equal. lia.
     + apply N.ltb_ge in E2. symmetry. apply firstn_all2. rewrite skipn_length. lia.
 Qed.
 
-(* a[l..r] is elements l .. r-1 (clamped at the end) whenever l <= len and l <= r; absent bounds are 0 / len *)
+(* HEADLINE: for ALL bounds, a[l..r] is elements min(l,len) .. min(r,len)-1 (empty when r <= l);
+   absent bounds are 0 / len.
+   (_old: before commit 90a0582 this needed l <= len and l <= r, and outside that domain the code panicked:
+   `var arr[5..2]`, `var arr[5..]` on 3 elements at drain(..left), `var arr[3..2]` at right - left.) *)
 Theorem array_slice_spec : forall items left right,
-  let l := match left with Some l => l | None => 0 end in
-  let r := match right with Some r => r | None => N.of_nat (length items) end in
-  l <= N.of_nat (length items) -> l <= r ->
   array_slice items left right = spec_slice_opt items left right.
 Proof.
-  intros items left right l r Hl Hr. unfold array_slice, spec_slice_opt. fold l. fold r.
-  assert (Hi : match left with
-               | Some l0 => if l0 <=? N.of_nat (length items) then Ok (skipn (N.to_nat l0) items) else Panic SITE_DRAIN
-               | None => Ok items end = Ok (skipn (N.to_nat l) items)).
-  { subst l. destruct left as [l0|]; [|reflexivity].
-    destruct (l0 <=? N.of_nat (length items)) eqn:E; [reflexivity|]. apply N.leb_gt in E. lia. }
-  rewrite Hi. cbn [bind]. destruct right as [r0|].
-  - subst r. destruct (r0 <? l) eqn:E; [apply N.ltb_lt in E; lia|].
-    rewrite <- (slice_core items l r0 Hl Hr).
-    destruct (r0 - l <? N.of_nat (length (skipn (N.to_nat l) items))); reflexivity.
-  - subst r. rewrite <- (slice_core items l _ Hl Hr). rewrite skipn_length.
+  intros items left right. unfold array_slice, spec_slice_opt.
+  set (l := match left with Some l => l | None => 0 end).
+  destruct right as [r0|].
+  - rewrite <- (slice_core items l r0). cbn zeta.
+    destruct (r0 - N.min l (N.of_nat (length items)) <?
+              N.of_nat (length (skipn (N.to_nat (N.min l (N.of_nat (length items)))) items))); reflexivity.
+  - rewrite <- (slice_core items l (N.of_nat (length items))). cbn zeta. rewrite skipn_length.
     destruct (_ <? _) eqn:E; [|reflexivity]. apply N.ltb_lt in E. lia.
 Qed.
 
-(* exact panic domain of ArrayValue::slice *)
-Theorem array_slice_panics_iff : forall items left right,
-  let l := match left with Some l => l | None => 0 end in
-  is_panic (array_slice items left right) = true <->
-  (N.of_nat (length items) < l \/ exists r, right = Some r /\ r < l).
-Proof.
-  intros items left right l. unfold array_slice. fold l.
-  destruct left as [l0|]; cbn [bind].
-  - subst l. destruct (l0 <=? N.of_nat (length items)) eqn:E.
-    + apply N.leb_le in E. cbn [bind]. destruct right as [r0|].
-      * destruct (r0 <? l0) eqn:E2.
-        { apply N.ltb_lt in E2. cbn. split; [intros _; right; eauto|reflexivity]. }
-        apply N.ltb_ge in E2. destruct (r0 - l0 <? N.of_nat (length (skipn (N.to_nat l0) items))); cbn; (split; [discriminate|]);
-          (intros [H|[r [H1 H2]]]; [lia|injection H1 as H1; lia]).
-      * cbn. split; [discriminate|]. intros [H|[r [H1 _]]]; [lia|discriminate].
-    + apply N.leb_gt in E. cbn. split; [intros _; left; exact E|reflexivity].
-  - subst l. destruct right as [r0|].
-    + destruct (r0 <? 0) eqn:E2; [apply N.ltb_lt in E2; lia|].
-      destruct (r0 - 0 <? N.of_nat (length items)); cbn;
-        (split; [discriminate|]); intros [H|[r [H1 H2]]]; lia.
-    + cbn. split; [discriminate|]. intros [H|[r [H1 _]]]; [lia|discriminate].
-Qed.
+Corollary array_slice_no_panic : forall items left right, is_panic (array_slice items left right) = false.
+Proof. intros. rewrite array_slice_spec. reflexivity. Qed.
 
-(* "a slice never panics" is false: smallest witnesses, one per site *)
-Theorem array_slice_no_panic_refuted :
-  (exists items l r, array_slice items (Some l) (Some r) = Panic SITE_DRAIN) /\
-  (exists items l r, l <= N.of_nat (length items) /\ array_slice items (Some l) (Some r) = Panic SITE_SLICE_SUB).
+(* reading of the specification: which elements, and when it is empty *)
+Lemma spec_slice_empty : forall items l r, r <= l -> spec_slice items l r = [].
 Proof.
-  split.
-  - exists [VScalar no_meta None; VScalar no_meta None; VScalar no_meta None], 5, 2. reflexivity.
-  - exists [VScalar no_meta None; VScalar no_meta None; VScalar no_meta None], 2, 1. split; [cbn; lia|reflexivity].
+  intros items l r H. unfold spec_slice. destruct (_ <=? l); [reflexivity|].
+  replace (N.to_nat (N.min r (N.of_nat (length items))) - N.to_nat l)%nat with O by lia. reflexivity.
+Qed.
+Lemma spec_slice_elements : forall items l r i,
+  nth_error (spec_slice items l r) i =
+  if (N.of_nat i <? N.min r (N.of_nat (length items)) - N.min l (N.of_nat (length items)))
+  then nth_error items (N.to_nat (N.min l (N.of_nat (length items))) + i) else None.
+Proof.
+  intros items l r i. unfold spec_slice. destruct (N.of_nat (length items) <=? l) eqn:E.
+  - apply N.leb_le in E. destruct (_ <? _) eqn:E2; [apply N.ltb_lt in E2; lia|]. destruct i; reflexivity.
+  - apply N.leb_gt in E. destruct (_ <? _) eqn:E2.
+    + apply N.ltb_lt in E2. rewrite nth_error_firstn' by lia. rewrite nth_error_skipn'. f_equal. lia.
+    + apply N.ltb_ge in E2. apply nth_error_None. rewrite firstn_length, skipn_length. lia.
 Qed.
 
 Lemma spec_slice_length : forall items l r,
@@ -202,7 +186,7 @@ Theorem index_of_slice : forall m items l r i,
              VINDEX v' (LInt (Z.of_N i)) = nth_error items (N.to_nat (l + i)).
 Proof.
   intros m items l r i H1 H2 H3. cbn [v_slice].
-  rewrite (array_slice_spec items (Some l) (Some r)) by (cbn; lia).
+  rewrite (array_slice_spec items (Some l) (Some r)).
   unfold spec_slice_opt. cbn [bind]. eexists. split; [reflexivity|].
   cbn [v_index]. rewrite spec_slice_length by assumption.
   assert (Ha : ((0 <=? Z.of_N i) && (Z.of_N i <? Z.of_nat (N.to_nat (r - l))))%Z = true).
@@ -341,11 +325,10 @@ Theorem eval_slice_spec : forall e root m items left right,
   let l := match left with Some l => l | None => 0 end in
   let r := match right with Some r => r | None => N.of_nat (length items) end in
   EVAL e root = Ok (Some (VArray m (Some items))) ->
-  l <= N.of_nat (length items) -> l <= r ->
   EVAL (Slice e left right) root = Ok (Some (VArray m (Some (spec_slice items l r)))).
 Proof.
-  intros e root m items left right l r He Hl Hr. unfold eval in *. cbn [eval_gen]. rewrite He.
-  cbn [bind v_slice]. rewrite (array_slice_spec items left right Hl Hr). reflexivity.
+  intros e root m items left right l r He. unfold eval in *. cbn [eval_gen]. rewrite He.
+  cbn [bind v_slice]. rewrite (array_slice_spec items left right). reflexivity.
 Qed.
 
 Theorem eval_index_of_slice : forall e root m items l r i,
@@ -409,30 +392,32 @@ Proof.
   repeat split; try (vm_compute; reflexivity). intros H. discriminate H.
 Qed.
 
-(* out-of-range slices panic where the documented meaning (clamping) gives an empty result *)
-Theorem eval_slice_no_panic_refuted :
-  w_eval (Slice w_var (Some 5) (Some 2)) w_arr = Panic SITE_DRAIN /\
-  w_eval (Slice w_var (Some 5) None) w_arr = Panic SITE_DRAIN /\
-  w_eval (Slice w_var (Some 3) (Some 2)) w_arr = Panic SITE_SLICE_SUB /\
-  w_spec_eval (Slice w_var (Some 5) (Some 2)) w_arr = Ok (Some (VArray (mk_meta (Some 100) (Some 7)) (Some []))).
+(* out-of-range slices are clamped
+   (_old: the first three evaluations were Panic SITE_DRAIN / SITE_DRAIN / SITE_SLICE_SUB before commit 90a0582) *)
+Theorem eval_slice_clamps :
+  w_eval (Slice w_var (Some 5) (Some 2)) w_arr = Ok (Some (VArray (mk_meta (Some 100) (Some 7)) (Some []))) /\
+  w_eval (Slice w_var (Some 5) None) w_arr = Ok (Some (VArray (mk_meta (Some 100) (Some 7)) (Some []))) /\
+  w_eval (Slice w_var (Some 3) (Some 2)) w_arr = Ok (Some (VArray (mk_meta (Some 100) (Some 7)) (Some []))) /\
+  w_eval (Slice w_var (Some 2) (Some 9)) w_arr = Ok (Some (VArray (mk_meta (Some 100) (Some 7)) (Some [w_s 12; w_s 13]))).
 Proof. repeat split; vm_compute; reflexivity. Qed.
 
 (* ================================================================================================ *)
 (** * 4. Parsing the canonical text *)
 
 Definition wf_path (p : path) : bool := match snd p with [] => false | _ :: _ => true end.
-(* a path in literal position: `true` / `false` are keywords there, and they match as PREFIXES *)
+(* a path in literal position: the whole words `true` / `false` are the boolean literals there
+   (_old: before commit 0b2cb8c every identifier STARTING with true/false was excluded: `m[trueish]` was rejected) *)
 Definition lit_path_ok (p : path) : bool :=
   match p with
   | (_, []) => false
   | (true, _ :: _) => true
-  | (false, s :: _) => negb (bool_prefixed s)
+  | (false, s :: _) => negb (bstr_eqb s s_true) && negb (bstr_eqb s s_false)
   end.
 
 Fixpoint wf_lit (l : lit) : bool :=
   match l with
   | LStr _ => true
-  | LInt z => ((- Z.of_N P63 <? z) && (z <? Z.of_N P63))%Z
+  | LInt z => ((- Z.of_N P63 <=? z) && (z <? Z.of_N P63))%Z   (* all of i64 (_old: i64::MIN excluded) *)
   | LFloat _ _ fd => float_ok fd
   | LAddr n => n <? P64
   | LBool _ => true
@@ -570,21 +555,6 @@ Proof. intros [|t r] H; [reflexivity|]. destruct t; try reflexivity; discriminat
 Lemma sep_tail_lit_tail : forall tl, sep_tail tl -> lit_tail tl = true.
 Proof. intros tl [r [->| ->]]; reflexivity. Qed.
 
-Lemma list_eqb_prefix : forall a b, list_eqb N.eqb a b = true -> is_prefix N.eqb b a = true.
-Proof.
-  induction a as [|x a IH]; intros [|y b] H; try discriminate H; [reflexivity|].
-  cbn [list_eqb] in H. apply andb_true_iff in H. destruct H as [H1 H2].
-  cbn [is_prefix]. rewrite N.eqb_sym, H1. cbn [andb]. apply IH. exact H2.
-Qed.
-
-Lemma not_prefixed_not_bool : forall s, bool_prefixed s = false ->
-  bstr_eqb s s_true = false /\ bstr_eqb s s_false = false.
-Proof.
-  intros s H. unfold bool_prefixed in H. apply orb_false_iff in H. destruct H as [H1 H2]. split.
-  - destruct (bstr_eqb s s_true) eqn:E; [|reflexivity]. apply list_eqb_prefix in E. rewrite E in H1. discriminate H1.
-  - destruct (bstr_eqb s s_false) eqn:E; [|reflexivity]. apply list_eqb_prefix in E. rewrite E in H2. discriminate H2.
-Qed.
-
 (* the enum alternative on the canonical text of a path with optional payload *)
 Lemma enum_lit_print : forall (pl : lit_parser) p arg rest,
   wf_path p = true -> lit_tail rest = true ->
@@ -630,8 +600,6 @@ Proof.
     destruct (bstr_eqb s s_false).
     { rewrite sep_more_stop by (destruct segs; exact I). eexists. eexists. split; [reflexivity|].
       intros r2 H. destruct segs; discriminate H. }
-    destruct (bool_prefixed s).
-    { eexists. eexists. split; [reflexivity|]. intros r2 H. discriminate H. }
     rewrite Henum. rewrite sep_more_stop by exact I. eexists. eexists. split; [reflexivity|].
     intros r2 H. discriminate H.
 Qed.
@@ -652,7 +620,7 @@ Proof.
     intros Hw f rest Hf Ht; (destruct f as [|f']; [cbn in Hf; lia|]).
   - reflexivity.
   - cbn [wf_lit] in Hw. apply andb_true_iff in Hw. destruct Hw as [H1 H2].
-    apply Z.ltb_lt in H1. apply Z.ltb_lt in H2. cbn [print_lit].
+    apply Z.leb_le in H1. apply Z.ltb_lt in H2. cbn [print_lit].
     destruct (z <? 0)%Z eqn:E.
     + apply Z.ltb_lt in E. cbn [app parse_lit].
       rewrite int_literal_neg by (unfold P63 in *; lia). cbn [bind]. rewrite Z2N.id by lia.
@@ -671,9 +639,9 @@ Proof.
     rewrite print_enum_eq in *. destruct p as [lead [|s segs]]; [destruct lead; discriminate Hp|].
     destruct lead; cbn [print_path app] in *.
     + cbn [parse_lit]. exact Henum.
-    + cbn [lit_path_ok] in Hp. apply negb_true_iff in Hp.
-      destruct (not_prefixed_not_bool s Hp) as [E1 E2].
-      cbn [parse_lit]. rewrite E1, E2, Hp. exact Henum.
+    + cbn [lit_path_ok] in Hp. apply andb_true_iff in Hp. destruct Hp as [E1 E2].
+      apply negb_true_iff in E1. apply negb_true_iff in E2.
+      cbn [parse_lit]. rewrite E1, E2. exact Henum.
   - rewrite print_arr_eq in *. cbn [wf_lit] in Hw.
     pose proof (proj1 (forallb_forall _ _) Hw) as Hw'. clear Hw. rename Hw' into Hw.
     pose proof (proj1 (Forall_forall _ _) IH) as IH'. clear IH. rename IH' into IH. unfold optP in IH.
@@ -986,20 +954,27 @@ Proof.
 Qed.
 
 (* ------------------------------------------------------------------------------------------------ *)
-(** ** what lies outside [wf_dqe]: every clause of well-formedness is needed *)
+(** ** what lies outside [wf_dqe] *)
 
 Definition w_a : dqe := Var (false, [[109]]).                        (* m *)
 Definition s_trueish : bstr := [116; 114; 117; 101; 105; 115; 104].  (* trueish *)
 
-(* The full statement "forall e, parse (print e) = Ok e" is false.  All four witnesses are values the
-   Rust `Dqe` type can hold (an enum variant named `trueish`, the f64 1.05, i64::MIN, an empty HashMap). *)
+(* these three were the counter-examples of the unrepaired grammar; they are well-formed now and round-trip
+   (_old: parse (print e1) = Err 0, parse (print e2) = Err 0, parse (print e3) = Panic SITE_EXPR_NEG) *)
+Example parse_print_repaired :
+  let e1 := Index w_a (LEnum (false, [s_trueish]) None) in       (* m[trueish] *)
+  let e2 := Index w_a (LFloat false 1 [0; 5]) in                  (* m[1.05] *)
+  let e3 := Index w_a (LInt (- 9223372036854775808)) in           (* m[-9223372036854775808] *)
+  wf_dqe e1 = true /\ wf_dqe e2 = true /\ wf_dqe e3 = true /\
+  parse (print e1) = Ok e1 /\ parse (print e2) = Ok e2 /\ parse (print e3) = Ok e3.
+Proof. repeat split; vm_compute; reflexivity. Qed.
+
+(* The full statement "forall e, parse (print e) = Ok e" is still false: an empty struct literal has no text
+   (`{}` is the empty array literal), and the words true / false are not enum variants. *)
 Theorem parse_print_unrestricted_refuted :
-  let e1 := Index w_a (LEnum (false, [s_trueish]) None) in
-  let e2 := Index w_a (LFloat false 1 [0; 5]) in
-  let e3 := Index w_a (LInt (- 9223372036854775808)) in
   let e4 := Index w_a (LAssoc []) in
-  parse (print e1) = Err 0 /\ parse (print e2) = Err 0 /\
-  parse (print e3) = Panic SITE_EXPR_NEG /\ parse (print e4) = Ok (Index w_a (LArr [])).
+  let e5 := Index w_a (LEnum (false, [s_true]) None) in
+  parse (print e4) = Ok (Index w_a (LArr [])) /\ parse (print e5) = Ok (Index w_a (LBool true)).
 Proof. repeat split; vm_compute; reflexivity. Qed.
 
 (* Rust's own `Display for Literal` is not an inverse of the literal grammar *)
@@ -1041,238 +1016,390 @@ Example paren_then_hex_is_cast :   (* (a)0x10 is a pointer cast, not a parenthes
   parse [TLParen; w_id 97; TRParen; THex 16] = Ok (PtrCast [w_id 97] 16).
 Proof. vm_compute. reflexivity. Qed.
 
-(* "no input panics the parser" is false: one smallest witness per unwrap *)
-Theorem parse_no_panic_refuted :
-  parse [w_id 120; TLBrack; TInt P64; TRBrack] = Panic SITE_EXPR_INT /\            (* x[18446744073709551616] *)
-  parse [w_id 120; TLBrack; TMinus; TInt P63; TRBrack] = Panic SITE_EXPR_NEG /\    (* x[-9223372036854775808] *)
-  parse [w_id 120; TLBrack; TDotDot; TInt P64; TRBrack] = Panic SITE_EXPR_USIZE /\ (* x[..18446744073709551616] *)
-  parse [w_id 120; TLBrack; THex P64; TRBrack] = Panic SITE_HEX /\                 (* x[0x10000000000000000] *)
-  parse [TLParen; w_id 120; TRParen; THex P64] = Panic SITE_HEX.                   (* (x)0x10000000000000000 *)
+(* the five inputs that used to panic (one per unwrap) are rejected, except -2^63 which is now i64::MIN
+   (_old: Panic SITE_EXPR_INT, SITE_EXPR_NEG, SITE_EXPR_USIZE, SITE_HEX, SITE_HEX) *)
+Theorem parse_old_panic_witnesses :
+  parse [w_id 120; TLBrack; TInt P64; TRBrack] = Err 0 /\            (* x[18446744073709551616] *)
+  parse [w_id 120; TLBrack; TMinus; TInt P63; TRBrack] = Ok (Index (w_v 120) (LInt (- 9223372036854775808))) /\
+  parse [w_id 120; TLBrack; TDotDot; TInt P64; TRBrack] = Err 0 /\   (* x[..18446744073709551616] *)
+  parse [w_id 120; TLBrack; THex P64; TRBrack] = Err 0 /\            (* x[0x10000000000000000] *)
+  parse [TLParen; w_id 120; TRParen; THex P64] = Err 0.              (* (x)0x10000000000000000 *)
 Proof. repeat split; vm_compute; reflexivity. Qed.
 
 (* ================================================================================================ *)
-(** * 5. The parser never panics on inputs whose numbers are in range (for ALL token lists) *)
+(** * 5. The parser never panics, on ANY token list
+    (_old: before commit 99f406a this held only for token lists whose integers were < 2^63 and hex numbers < 2^64) *)
 
-Definition tok_small (t : token) : bool :=
-  match t with TInt n => n <? P63 | THex n => n <? P64 | _ => true end.
-Definition small (ts : list token) : bool := forallb tok_small ts.
+Definition np {A} (r : res A) : Prop := match r with Panic _ => False | _ => True end.
 
-Definition safeP {A} (r : res (A * list token)) : Prop :=
-  match r with Ok (_, rest) => small rest = true | Panic _ => False | _ => True end.
+Lemma np_is_panic : forall {A} (r : res A), np r -> is_panic r = false.
+Proof. intros A [a|c|s|] H; try reflexivity. destruct H. Qed.
 
-Lemma small_cons : forall t r, small (t :: r) = true -> tok_small t = true /\ small r = true.
-Proof. intros t r H. apply andb_true_iff in H. exact H. Qed.
-
-Lemma path_tail_small_n : forall n ts, (length ts <= n)%nat -> small ts = true -> small (snd (path_tail ts)) = true.
-Proof.
-  induction n as [|n IH]; intros ts Hl Hs.
-  - destruct ts; [reflexivity|cbn in Hl; lia].
-  - destruct ts as [|t r]; [reflexivity|]. destruct t; try exact Hs.
-    destruct r as [|t2 r2]; [exact Hs|]. destruct t2; try exact Hs.
-    cbn [path_tail]. destruct (path_tail r2) as [segs r'] eqn:E. cbn [snd].
-    apply small_cons in Hs. destruct Hs as [_ Hs]. apply small_cons in Hs. destruct Hs as [_ Hs].
-    specialize (IH r2). rewrite E in IH. apply IH; [cbn [length] in Hl; lia|exact Hs].
-Qed.
-Lemma path_tail_small : forall ts, small ts = true -> small (snd (path_tail ts)) = true.
-Proof. intros ts. apply (path_tail_small_n (length ts)). lia. Qed.
-
-Lemma parse_path_small : forall ts p r, parse_path ts = Some (p, r) -> small ts = true -> small r = true.
-Proof.
-  intros ts p r H Hs. destruct ts as [|t ts1]; [discriminate H|]. destruct t; try discriminate H.
-  - cbn [parse_path] in H. apply small_cons in Hs. destruct Hs as [_ Hs].
-    pose proof (path_tail_small ts1 Hs) as Hp. destruct (path_tail ts1) as [segs r'].
-    injection H as _ H. subst r'. exact Hp.
-  - destruct ts1 as [|t2 ts2]; [discriminate H|]. destruct t2; try discriminate H.
-    cbn [parse_path] in H. apply small_cons in Hs. destruct Hs as [_ Hs]. apply small_cons in Hs. destruct Hs as [_ Hs].
-    pose proof (path_tail_small ts2 Hs) as Hp. destruct (path_tail ts2) as [segs r'].
-    injection H as _ H. subst r'. exact Hp.
-Qed.
-
-Section SepSafe.
+Section SepNp.
 Context {A : Type}.
 Variable item : list token -> res (A * list token).
-Hypothesis item_safe : forall ts, small ts = true -> safeP (item ts).
+Hypothesis item_np : forall ts, np (item ts).
 
-Lemma sep_more_safe : forall f ts, small ts = true -> safeP (sep_more item f ts).
+Lemma sep_more_np : forall f ts, np (sep_more item f ts).
 Proof.
-  induction f as [|f IH]; intros ts Hs; [exact I|].
-  destruct ts as [|t r]; [exact Hs|]. destruct t; try exact Hs.
-  cbn [sep_more]. apply small_cons in Hs. destruct Hs as [Ht Hr].
-  pose proof (item_safe r Hr) as Hi. destruct (item r) as [[x r1]| | |]; cbn [safeP] in Hi.
-  - pose proof (IH r1 Hi) as Hm. destruct (sep_more item f r1) as [[xs r2]| | |]; exact Hm.
-  - change (tok_small TComma && small r = true). rewrite Hr. reflexivity.
-  - destruct Hi.
-  - exact I.
+  induction f as [|f IH]; intros ts; [exact I|].
+  destruct ts as [|t r]; [exact I|]. destruct t; try exact I.
+  cbn [sep_more]. pose proof (item_np r) as Hi. destruct (item r) as [[x r1]| | |]; try exact Hi; try exact I.
+  pose proof (IH r1) as Hm. destruct (sep_more item f r1) as [[xs r2]| | |]; try exact Hm; exact I.
 Qed.
 
-Lemma sep_list_safe : forall f ts, small ts = true -> safeP (sep_list item f ts).
+Lemma sep_list_np : forall f ts, np (sep_list item f ts).
 Proof.
-  intros f ts Hs. unfold sep_list. pose proof (item_safe ts Hs) as Hi.
-  destruct (item ts) as [[x r]| | |]; cbn [safeP] in Hi.
-  - pose proof (sep_more_safe f r Hi) as Hm. destruct (sep_more item f r) as [[xs r']| | |]; exact Hm.
-  - exact Hs.
-  - destruct Hi.
-  - exact I.
+  intros f ts. unfold sep_list. pose proof (item_np ts) as Hi.
+  destruct (item ts) as [[x r]| | |]; try exact Hi; try exact I.
+  pose proof (sep_more_np f r) as Hm. destruct (sep_more item f r) as [[xs r']| | |]; try exact Hm; exact I.
 Qed.
-End SepSafe.
+End SepNp.
 
-Lemma low_safe : forall (pl : lit_parser), (forall ts, small ts = true -> safeP (pl ts)) ->
-  forall ts, small ts = true -> safeP (low pl ts).
+Lemma low_np : forall (pl : lit_parser), (forall ts, np (pl ts)) -> forall ts, np (low pl ts).
 Proof.
-  intros pl Hpl ts Hs. unfold low. pose proof (Hpl ts Hs) as H.
-  destruct (pl ts) as [[l r]| | |]; try exact H.
-  destruct ts as [|t r]; [exact I|]. destruct t; try exact I. apply small_cons in Hs. exact (proj2 Hs).
+  intros pl Hpl ts. unfold low. pose proof (Hpl ts) as H.
+  destruct (pl ts) as [[l r]| | |]; try exact H; try exact I.
+  destruct ts as [|t r]; [exact I|]. destruct t; exact I.
 Qed.
 
-Lemma kv_item_safe : forall (pl : lit_parser), (forall ts, small ts = true -> safeP (pl ts)) ->
-  forall ts, small ts = true -> safeP (kv_item pl ts).
+Lemma kv_item_np : forall (pl : lit_parser), (forall ts, np (pl ts)) -> forall ts, np (kv_item pl ts).
 Proof.
-  intros pl Hpl ts Hs. unfold kv_item. destruct (parse_path ts) as [[k r]|] eqn:E; [|exact I].
-  pose proof (parse_path_small ts k r E Hs) as Hr. destruct r as [|t r1]; [exact I|]. destruct t; try exact I.
-  apply small_cons in Hr. destruct Hr as [_ Hr].
-  pose proof (low_safe pl Hpl r1 Hr) as H. destruct (low pl r1) as [[v r']| | |]; exact H.
+  intros pl Hpl ts. unfold kv_item. destruct (parse_path ts) as [[k r]|]; [|exact I].
+  destruct r as [|t r1]; [exact I|]. destruct t; try exact I.
+  pose proof (low_np pl Hpl r1) as H. destruct (low pl r1) as [[v r']| | |]; try exact H; exact I.
 Qed.
 
-Lemma enum_lit_safe : forall (pl : lit_parser), (forall ts, small ts = true -> safeP (pl ts)) ->
-  forall ts, small ts = true -> safeP (enum_lit pl ts).
+Lemma enum_lit_np : forall (pl : lit_parser), (forall ts, np (pl ts)) -> forall ts, np (enum_lit pl ts).
 Proof.
-  intros pl Hpl ts Hs. unfold enum_lit. destruct (parse_path ts) as [[p r]|] eqn:E; [|exact I].
-  pose proof (parse_path_small ts p r E Hs) as Hr. destruct r as [|t r1]; [exact Hr|].
-  destruct t; try exact Hr. pose proof Hr as Hr'. apply small_cons in Hr'. destruct Hr' as [_ Hr1].
-  pose proof (Hpl r1 Hr1) as H. destruct (pl r1) as [[a r2]| | |]; cbn [safeP] in H; try exact Hr; try exact H.
-  destruct r2 as [|t2 r3]; [exact Hr|]. destruct t2; try exact Hr. apply small_cons in H. exact (proj2 H).
+  intros pl Hpl ts. unfold enum_lit. destruct (parse_path ts) as [[p r]|]; [|exact I].
+  destruct r as [|t r1]; [exact I|]. destruct t; try exact I.
+  pose proof (Hpl r1) as H. destruct (pl r1) as [[a r2]| | |]; try exact H; try exact I.
+  destruct r2 as [|t2 r3]; [exact I|]. destruct t2; exact I.
 Qed.
 
-Lemma parse_lit_safe : forall f ts, small ts = true -> safeP (parse_lit f ts).
+Lemma int_lit_step_np : forall neg n (r : list token),
+  np (z <- int_literal neg n ;; Ok (LInt z, r)).
 Proof.
-  induction f as [|f IH]; intros ts Hs; [exact I|].
-  destruct ts as [|t r]; [exact I|]. pose proof Hs as Hs0. apply small_cons in Hs. destruct Hs as [Ht Hr].
-  destruct t; cbn [parse_lit]; try exact I.
-  - (* TId *)
-    destruct (bstr_eqb s s_true); [exact Hr|]. destruct (bstr_eqb s s_false); [exact Hr|].
-    destruct (bool_prefixed s); [exact I|]. apply enum_lit_safe; [exact IH|exact Hs0].
-  - (* TInt *)
-    cbn [tok_small] in Ht. apply N.ltb_lt in Ht. rewrite int_literal_pos by exact Ht. exact Hr.
-  - (* THex *)
-    cbn [tok_small] in Ht. apply N.ltb_lt in Ht. rewrite conv_u64_ok by exact Ht. exact Hr.
-  - (* TFloat *)
-    destruct (float_ok fd); [exact Hr|exact I].
-  - (* TStr *) exact Hr.
-  - (* TMinus *)
-    destruct r as [|t2 r2]; [exact I|]. apply small_cons in Hr. destruct Hr as [Ht2 Hr2].
-    destruct t2; try exact I.
-    + cbn [tok_small] in Ht2. apply N.ltb_lt in Ht2. rewrite int_literal_neg by exact Ht2. exact Hr2.
-    + destruct (float_ok fd); [exact Hr2|exact I].
-  - (* TColon2 *) apply enum_lit_safe; [exact IH|exact Hs0].
-  - (* TLBrace *)
-    pose proof (sep_list_safe (low (parse_lit f)) (low_safe _ IH) f r Hr) as H1.
-    pose proof (sep_list_safe (kv_item (parse_lit f)) (kv_item_safe _ IH) f r Hr) as H2.
-    destruct (sep_list (low (parse_lit f)) f r) as [[items r1]| | |]; cbn [safeP] in H1.
-    + destruct r1 as [|t1 r2]; cbn [orelse].
-      * destruct (sep_list (kv_item (parse_lit f)) f r) as [[kvs r3]| | |]; cbn [safeP] in H2; try exact H2.
-        destruct r3 as [|t3 r4]; [exact I|]. destruct t3; try exact I. apply small_cons in H2. exact (proj2 H2).
-      * destruct t1; cbn [orelse];
-          try (destruct (sep_list (kv_item (parse_lit f)) f r) as [[kvs r3]| | |]; cbn [safeP] in H2; try exact H2;
-               destruct r3 as [|t3 r4]; [exact I|]; destruct t3; try exact I; apply small_cons in H2; exact (proj2 H2)).
-        apply small_cons in H1. exact (proj2 H1).
-    + cbn [orelse]. destruct (sep_list (kv_item (parse_lit f)) f r) as [[kvs r3]| | |]; cbn [safeP] in H2; try exact H2.
-      destruct r3 as [|t3 r4]; [exact I|]. destruct t3; try exact I. apply small_cons in H2. exact (proj2 H2).
-    + destruct H1.
-    + exact I.
+  intros neg n r. pose proof (int_literal_no_panic neg n) as H.
+  destruct (int_literal neg n); try exact I. discriminate H.
+Qed.
+Lemma hex_step_np : forall {A} s n (k : N -> A),
+  np (v <- conv_u64 s n ;; Ok (k v)).
+Proof.
+  intros A s n k. pose proof (conv_u64_no_panic s n) as H. destruct (conv_u64 s n); try exact I. discriminate H.
 Qed.
 
-Lemma ty_span_small : forall ts, small ts = true -> small (snd (ty_span ts)) = true.
+Lemma close_np : forall {X Y} (r : res (X * list token)) (g : X -> Y), np r ->
+  np (match r with
+      | Ok (x, TRBrace :: r2) => Ok (g x, r2)
+      | Ok _ => Err 0
+      | Err c => Err c
+      | Panic s => Panic s
+      | OutOfFuel => OutOfFuel
+      end).
 Proof.
-  induction ts as [|t r IH]; intros Hs; [reflexivity|]. cbn [ty_span]. destruct (is_ty_tok t); [|exact Hs].
-  apply small_cons in Hs. destruct Hs as [_ Hr]. specialize (IH Hr). destruct (ty_span r) as [a b]. exact IH.
+  intros X Y [[x r]| | |] g H; try exact H; try exact I.
+  destruct r as [|t r2]; [exact I|]. destruct t; exact I.
+Qed.
+Lemma orelse_np : forall {A} (a b : res A), np a -> np b -> np (orelse a b).
+Proof. intros A [x|c|s|] b Ha Hb; try exact I; [exact Hb|destruct Ha]. Qed.
+
+Lemma parse_lit_np : forall f ts, np (parse_lit f ts).
+Proof.
+  induction f as [|f IH]; intros ts; [exact I|].
+  destruct ts as [|t r]; [exact I|]. destruct t; cbn [parse_lit]; try exact I.
+  - destruct (bstr_eqb s s_true); [exact I|]. destruct (bstr_eqb s s_false); [exact I|].
+    apply enum_lit_np. exact IH.
+  - apply int_lit_step_np.
+  - apply (hex_step_np SITE_HEX n (fun v => (LAddr v, r))).
+  - destruct (float_ok fd); exact I.
+  - destruct r as [|t2 r2]; [exact I|]. destruct t2; try exact I.
+    + apply int_lit_step_np.
+    + destruct (float_ok fd); exact I.
+  - apply enum_lit_np. exact IH.
+  - apply orelse_np.
+    + apply (close_np (sep_list (low (parse_lit f)) f r) LArr). apply sep_list_np. apply low_np. exact IH.
+    + apply (close_np (sep_list (kv_item (parse_lit f)) f r) LAssoc). apply sep_list_np. apply kv_item_np. exact IH.
 Qed.
 
-Lemma ptr_cast_safe : forall ts, small ts = true -> safeP (ptr_cast ts).
+Lemma ptr_cast_np : forall ts, np (ptr_cast ts).
 Proof.
-  intros ts Hs. unfold ptr_cast. pose proof (ty_span_small ts Hs) as H. destruct (ty_span ts) as [ty r]. cbn [snd] in H.
+  intros ts. unfold ptr_cast. destruct (ty_span ts) as [ty r].
   destruct ty as [|t0 ty']; [exact I|]. destruct r as [|t r1]; [exact I|]. destruct t; try exact I.
   destruct r1 as [|t2 r2]; [exact I|]. destruct t2; try exact I.
-  apply small_cons in H. destruct H as [_ H]. apply small_cons in H. destruct H as [Hn H].
-  cbn [tok_small] in Hn. apply N.ltb_lt in Hn. rewrite conv_u64_ok by exact Hn. exact H.
+  apply (hex_step_np SITE_HEX n (fun v => (PtrCast (t0 :: ty') v, r2))).
 Qed.
 
-Lemma index_op_safe : forall f ts, small ts = true -> safeP (index_op (parse_lit f) ts).
+Lemma index_op_np : forall f ts, np (index_op (parse_lit f) ts).
 Proof.
-  intros f ts Hs. unfold index_op. pose proof (parse_lit_safe f ts Hs) as H.
-  destruct (parse_lit f ts) as [[l r]| | |]; try exact H. cbn [safeP] in H.
-  destruct r as [|t r1]; [exact I|]. destruct t; try exact I. apply small_cons in H. exact (proj2 H).
+  intros f ts. unfold index_op. pose proof (parse_lit_np f ts) as H.
+  destruct (parse_lit f ts) as [[l r]| | |]; try exact H; try exact I.
+  destruct r as [|t r1]; [exact I|]. destruct t; exact I.
 Qed.
 
-Lemma mb_usize_safe : forall ts, small ts = true -> exists o r, mb_usize ts = Ok (o, r) /\ small r = true.
+Lemma mb_usize_cases : forall ts, (exists o r, mb_usize ts = Ok (o, r)) \/ mb_usize ts = Err 0.
 Proof.
-  intros ts Hs. destruct ts as [|t r]; [eexists; eexists; split; [reflexivity|exact Hs]|].
-  destruct t; try (eexists; eexists; split; [reflexivity|exact Hs]).
-  apply small_cons in Hs. destruct Hs as [Hn Hr]. cbn [tok_small] in Hn. apply N.ltb_lt in Hn.
-  cbn [mb_usize]. rewrite conv_u64_ok by (unfold P63, P64 in *; lia). eexists. eexists. split; [reflexivity|exact Hr].
+  intros ts. destruct ts as [|t r]; [left; eexists; eexists; reflexivity|].
+  destruct t; try (left; eexists; eexists; reflexivity).
+  cbn [mb_usize]. destruct (N.lt_ge_cases n P64) as [H|H].
+  - rewrite conv_u64_ok by exact H. left. eexists. eexists. reflexivity.
+  - rewrite conv_u64_rejects by exact H. right. reflexivity.
 Qed.
 
-Lemma slice_op_safe : forall ts, small ts = true -> safeP (slice_op ts).
+Lemma slice_op_np : forall ts, np (slice_op ts).
 Proof.
-  intros ts Hs. unfold slice_op. destruct (mb_usize_safe ts Hs) as [a [r1 [E1 H1]]]. rewrite E1. cbn [bind snd fst].
-  destruct r1 as [|t r2]; [exact I|]. destruct t; try exact I. apply small_cons in H1. destruct H1 as [_ H2].
-  destruct (mb_usize_safe r2 H2) as [b [r3 [E2 H3]]]. rewrite E2. cbn [bind snd fst].
-  destruct r3 as [|t r4]; [exact I|]. destruct t; try exact I. apply small_cons in H3. exact (proj2 H3).
+  intros ts. unfold slice_op. destruct (mb_usize_cases ts) as [[a [r1 E1]]|E1]; rewrite E1; [|exact I].
+  cbn [bind snd fst]. destruct r1 as [|t r2]; [exact I|]. destruct t; try exact I.
+  destruct (mb_usize_cases r2) as [[b [r3 E2]]|E2]; rewrite E2; [|exact I].
+  cbn [bind snd fst]. destruct r3 as [|t r4]; [exact I|]. destruct t; exact I.
 Qed.
 
-Lemma parse_post_safe : forall f e ts, small ts = true -> safeP (parse_post f e ts).
+Lemma parse_post_np : forall f e ts, np (parse_post f e ts).
 Proof.
-  induction f as [|f IH]; intros e ts Hs; [exact I|].
-  destruct ts as [|t r]; [exact Hs|]. pose proof Hs as Hs0. apply small_cons in Hs. destruct Hs as [_ Hr].
-  destruct t; try exact Hs0.
-  - (* TDot *)
-    destruct r as [|t2 r2]; [exact Hs0|]. pose proof Hr as Hr0. apply small_cons in Hr. destruct Hr as [_ Hr2].
-    destruct t2; try exact Hs0; cbn [parse_post]; apply IH; exact Hr2.
-  - (* TLBrack *)
-    cbn [parse_post]. pose proof (index_op_safe f r Hr) as Hi.
-    destruct (index_op (parse_lit f) r) as [[l r']| | |]; cbn [safeP] in Hi.
-    + apply IH. exact Hi.
-    + pose proof (slice_op_safe r Hr) as Hsl. destruct (slice_op r) as [[[a b] r']| | |]; cbn [safeP] in Hsl.
-      * apply IH. exact Hsl.
-      * exact Hs0.
-      * destruct Hsl.
-      * exact I.
-    + destruct Hi.
-    + exact I.
+  induction f as [|f IH]; intros e ts; [exact I|].
+  destruct ts as [|t r]; [exact I|]. destruct t; try exact I.
+  - destruct r as [|t2 r2]; [exact I|]. destruct t2; try exact I; cbn [parse_post]; apply IH.
+  - cbn [parse_post]. pose proof (index_op_np f r) as Hi.
+    destruct (index_op (parse_lit f) r) as [[l r']| | |]; try exact Hi; try exact I.
+    + apply IH.
+    + pose proof (slice_op_np r) as Hsl. destruct (slice_op r) as [[[a b] r']| | |]; try exact Hsl; try exact I.
+      apply IH.
 Qed.
 
-Lemma parse_atom_safe : forall (pe : expr_parser), (forall ts, small ts = true -> safeP (pe ts)) ->
-  forall ts, small ts = true -> safeP (parse_atom pe ts).
+Lemma parse_atom_np : forall (pe : expr_parser), (forall ts, np (pe ts)) -> forall ts, np (parse_atom pe ts).
 Proof.
-  intros pe Hpe ts Hs. unfold parse_atom. destruct (parse_path ts) as [[p r]|] eqn:E.
-  - exact (parse_path_small ts p r E Hs).
-  - destruct ts as [|t r]; [exact I|]. destruct t; try exact I. apply small_cons in Hs. destruct Hs as [_ Hr].
-    pose proof (ptr_cast_safe r Hr) as Hc. destruct (ptr_cast r) as [[e r']| | |]; cbn [orelse]; try exact Hc.
-    pose proof (Hpe r Hr) as H. destruct (pe r) as [[e r']| | |]; try exact H. cbn [safeP] in H.
-    destruct r' as [|t r2]; [exact I|]. destruct t; try exact I. apply small_cons in H. exact (proj2 H).
+  intros pe Hpe ts. unfold parse_atom. destruct (parse_path ts) as [[p r]|]; [exact I|].
+  destruct ts as [|t r]; [exact I|]. destruct t; try exact I.
+  apply orelse_np; [apply ptr_cast_np|].
+  pose proof (Hpe r) as H. destruct (pe r) as [[e r']| | |]; try exact H; try exact I.
+  destruct r' as [|t r2]; [exact I|]. destruct t; exact I.
 Qed.
 
-Lemma parse_expr_safe : forall f ts, small ts = true -> safeP (parse_expr f ts).
+Lemma parse_expr_np : forall f ts, np (parse_expr f ts).
 Proof.
-  induction f as [|f IH]; intros ts Hs; [exact I|].
-  assert (Hatom : safeP (ar <- parse_atom (parse_expr f) ts ;; parse_post f (fst ar) (snd ar))).
-  { pose proof (parse_atom_safe (parse_expr f) IH ts Hs) as Ha.
-    destruct (parse_atom (parse_expr f) ts) as [[a r]| | |]; try exact Ha. cbn [bind fst snd]. apply parse_post_safe. exact Ha. }
+  induction f as [|f IH]; intros ts; [exact I|].
+  assert (Hatom : np (ar <- parse_atom (parse_expr f) ts ;; parse_post f (fst ar) (snd ar))).
+  { pose proof (parse_atom_np (parse_expr f) IH ts) as Ha.
+    destruct (parse_atom (parse_expr f) ts) as [[a r]| | |]; try exact Ha; try exact I. apply parse_post_np. }
   destruct ts as [|t r]; [exact Hatom|]. destruct t; try exact Hatom;
-    cbn [parse_expr]; apply small_cons in Hs; destruct Hs as [_ Hr]; pose proof (IH r Hr) as H;
-    destruct (parse_expr f r) as [[e r']| | |]; exact H.
+    cbn [parse_expr]; pose proof (IH r) as H; destruct (parse_expr f r) as [[e r']| | |]; try exact H; exact I.
 Qed.
 
-(* HEADLINE (C08, parser part): on any token list whose integers are below 2^63 and whose hex numbers are
-   below 2^64, the DQE parser returns an expression or a rejection - it never panics. *)
-Theorem parse_no_panic : forall ts, small ts = true -> is_panic (parse ts) = false.
+(* HEADLINE (C08, parser part): on EVERY token list the DQE parser returns an expression or a rejection *)
+Theorem parse_no_panic : forall ts, is_panic (parse ts) = false.
 Proof.
-  intros ts Hs. unfold parse. pose proof (parse_expr_safe (S (length ts)) ts Hs) as H.
+  intros ts. unfold parse. pose proof (parse_expr_np (S (length ts)) ts) as H.
   destruct (parse_expr (S (length ts)) ts) as [[e r]| | |]; try reflexivity; [destruct r; reflexivity|destruct H].
 Qed.
 
-(* ================================================================================================ *)
-(** * 6. Evaluation panics only through the slice operator *)
+Theorem parse_literal_no_panic : forall ts, is_panic (parse_literal ts) = false.
+Proof.
+  intros ts. unfold parse_literal. pose proof (parse_lit_np (S (length ts)) ts) as H.
+  destruct (parse_lit (S (length ts)) ts) as [[e r]| | |]; try reflexivity; [destruct r; reflexivity|destruct H].
+Qed.
 
+(* ================================================================================================ *)
+(** * 6. Evaluation never panics
+    (_old: before commit 90a0582 [eval] panicked through the slice operator - drain(..left) with left > len,
+    right - left with right < left, ptr + size * left - and the theorem was restricted to slice-free expressions) *)
+
+Section EvalTotal.
+Variable mem : N -> N -> option vtree.
+Variable mem_items : N -> N -> N -> option (list vtree).
+Variable ty_size : N -> option N.
+Variable ptr_type : list token -> option (option N).
+Variable float_eq : bool -> N -> list N -> N -> bool.
+
+Notation EVAL := (eval mem mem_items ty_size ptr_type float_eq).
+Notation SPEC_EVAL := (spec_eval mem mem_items ty_size ptr_type float_eq).
+
+Lemma v_slice_code_is_spec : forall v a b,
+  v_slice mem_items ty_size array_slice v a b = v_slice mem_items ty_size spec_slice_opt v a b.
+Proof.
+  intros v a b. destruct v as [| |? [?|]| | | |? buf ?| | | | |]; try reflexivity.
+  - cbn [v_slice]. rewrite array_slice_spec. reflexivity.
+  - cbn [v_slice]. destruct buf as [| |? [?|]| | | | | | | | |]; try reflexivity. rewrite array_slice_spec. reflexivity.
+Qed.
+
+(* HEADLINE: the code computes the documented meaning, for every expression, value and environment *)
+Theorem eval_is_spec_eval : forall e root, EVAL e root = SPEC_EVAL e root.
+Proof.
+  intros e root. unfold eval, spec_eval.
+  induction e as [p|ty n|e1 IH fn|e1 IH l|e1 IH a b|e1 IH|e1 IH|e1 IH]; cbn [eval_gen]; try rewrite IH; try reflexivity.
+  destruct (eval_gen mem mem_items ty_size ptr_type float_eq spec_slice_opt e1 root) as [[v|]| | |]; try reflexivity.
+  cbn [bind]. apply v_slice_code_is_spec.
+Qed.
+
+(* the only panic left in the operators is the debug assertion of VecValue::slice *)
+Lemma v_slice_panic_site : forall v a b s,
+  v_slice mem_items ty_size array_slice v a b = Panic s -> s = SITE_VEC_ASSERT.
+Proof.
+  intros v a b s H. destruct v as [| |? [?|]| | |? [?|] [?|]|? buf ?| | | | |]; cbn [v_slice] in H; try discriminate H.
+  - rewrite array_slice_spec in H. discriminate H.
+  - destruct b as [r|]; [|discriminate H]. destruct (ty_size n0) as [sz|]; [|discriminate H].
+    destruct (_ || _); [discriminate H|]. destruct (mem_items _ _ _); discriminate H.
+  - destruct buf as [| |? [?|]| | | | | | | | |]; try (injection H as H; symmetry; exact H); try discriminate H.
+    rewrite array_slice_spec in H. discriminate H.
+Qed.
+
+Theorem eval_panic_site : forall e root s, EVAL e root = Panic s -> s = SITE_VEC_ASSERT.
+Proof.
+  intros e root. unfold eval.
+  induction e as [p|ty n|e1 IH fn|e1 IH l|e1 IH a b|e1 IH|e1 IH|e1 IH]; intros s H; cbn [eval_gen] in H;
+    try discriminate H;
+    try (destruct (eval_gen _ _ _ _ _ _ e1 root) as [[v|]| | |]; cbn [bind] in H; try discriminate H;
+         try (apply IH; exact H); fail).
+  - destruct (ptr_type ty); discriminate H.
+  - destruct (eval_gen _ _ _ _ _ _ e1 root) as [[v|]| | |]; cbn [bind] in H; try discriminate H.
+    + exact (v_slice_panic_site v a b s H).
+    + apply IH. exact H.
+Qed.
+
+(* ... and that assertion cannot fire on values built by the vector parsers (specialization/mod.rs:261,788 always put a
+   Value::Array in members[0]): [vec_ok] says every vector inside a value has an array as its buffer *)
+Definition mems_ok (f : vtree -> bool) (ms : members vtree) : bool := forallb (fun m => f (snd m)) ms.
+
+Fixpoint vec_ok (v : vtree) : bool :=
+  match v with
+  | VScalar _ _ | VCEnum _ _ | VPointer _ _ _ | VSubroutine _ => true
+  | VStruct _ ms => forallb (fun m => vec_ok (snd m)) ms
+  | VArray _ None => true
+  | VArray _ (Some its) => forallb vec_ok its
+  | VRustEnum _ None => true
+  | VRustEnum _ (Some (_, x)) => vec_ok x
+  | VVec _ buf orig =>
+      match buf with VArray _ _ => true | _ => false end && vec_ok buf && forallb (fun m => vec_ok (snd m)) orig
+  | VMap _ kvs orig =>
+      forallb (fun kv => vec_ok (fst kv) && vec_ok (snd kv)) kvs && forallb (fun m => vec_ok (snd m)) orig
+  | VSet _ its orig => forallb vec_ok its && forallb (fun m => vec_ok (snd m)) orig
+  | VStr _ _ orig | VSpecOther _ orig => forallb (fun m => vec_ok (snd m)) orig
+  end.
+
+Hypothesis mem_ok : forall a t v, mem a t = Some v -> vec_ok v = true.
+Hypothesis mem_items_ok : forall a t n its, mem_items a t n = Some its -> forallb vec_ok its = true.
+
+Lemma find_member_ok : forall (ms : members vtree) n v,
+  forallb (fun m => vec_ok (snd m)) ms = true -> find_member ms n = Some v -> vec_ok v = true.
+Proof.
+  induction ms as [|[[n'|] x] r IH]; intros n v Hok H; cbn [find_member] in H; [discriminate H| |];
+    cbn [forallb snd] in Hok; apply andb_true_iff in Hok; destruct Hok as [Hx Hr].
+  - destruct (bstr_eqb n' n); [injection H as H; subst x; exact Hx|exact (IH n v Hr H)].
+  - exact (IH n v Hr H).
+Qed.
+
+Lemma v_field_ok : forall v n x, vec_ok v = true -> v_field v n = Some x -> vec_ok x = true.
+Proof.
+  fix IH 1. intros v n x Hok H. destruct v as [| | | |? [[fn inner]|]| |? buf ?|? kvs ?| | | |]; cbn [v_field] in H; try discriminate H.
+  - exact (find_member_ok ms n x Hok H).
+  - cbn [vec_ok] in Hok. exact (IH inner n x Hok H).
+  - cbn [vec_ok] in Hok. apply andb_true_iff in Hok. destruct Hok as [Hok _]. apply andb_true_iff in Hok.
+    destruct (bstr_eqb n [98; 117; 102]); [|discriminate H]. injection H as H. subst x. exact (proj2 Hok).
+  - cbn [vec_ok] in Hok. apply andb_true_iff in Hok. destruct Hok as [Hk _].
+    destruct (find _ kvs) as [[k y]|] eqn:E; [|discriminate H]. injection H as H. subst y.
+    apply find_some in E. destruct E as [Hin _]. rewrite forallb_forall in Hk. specialize (Hk _ Hin).
+    cbn [fst snd] in Hk. apply andb_true_iff in Hk. exact (proj2 Hk).
+Qed.
+
+Lemma nth_error_ok : forall (its : list vtree) i x, forallb vec_ok its = true -> nth_error its i = Some x -> vec_ok x = true.
+Proof. intros its i x Hok H. apply nth_error_In in H. rewrite forallb_forall in Hok. exact (Hok x H). Qed.
+
+Lemma v_index_ok : forall v l x, vec_ok v = true -> v_index float_eq v l = Some x -> vec_ok x = true.
+Proof.
+  fix IH 1. intros v l x Hok H.
+  destruct v as [| |? [its|]| |? [[fn inner]|]| |? buf ?|? kvs ?|? its ?| | |]; cbn [v_index] in H; try discriminate H.
+  - destruct l; try discriminate H. destruct (_ && _)%bool; [|discriminate H]. exact (nth_error_ok its _ x Hok H).
+  - cbn [vec_ok] in Hok. exact (IH inner l x Hok H).
+  - cbn [vec_ok] in Hok. apply andb_true_iff in Hok. destruct Hok as [Hok _]. apply andb_true_iff in Hok.
+    exact (IH buf l x (proj2 Hok) H).
+  - cbn [vec_ok] in Hok. apply andb_true_iff in Hok. destruct Hok as [Hk _].
+    destruct (find _ kvs) as [[k y]|] eqn:E; [|discriminate H]. injection H as H. subst y.
+    apply find_some in E. destruct E as [Hin _]. rewrite forallb_forall in Hk. specialize (Hk _ Hin).
+    cbn [fst snd] in Hk. apply andb_true_iff in Hk. exact (proj2 Hk).
+  - injection H as H. subst x. reflexivity.
+Qed.
+
+Lemma forallb_firstn : forall {A} (f : A -> bool) n l, forallb f l = true -> forallb f (firstn n l) = true.
+Proof.
+  intros A f n l H. rewrite forallb_forall in *. intros x Hin. apply H. rewrite <- (firstn_skipn n l).
+  apply in_or_app. left. exact Hin.
+Qed.
+Lemma forallb_skipn : forall {A} (f : A -> bool) n l, forallb f l = true -> forallb f (skipn n l) = true.
+Proof.
+  intros A f n l H. rewrite forallb_forall in *. intros x Hin. apply H. rewrite <- (firstn_skipn n l).
+  apply in_or_app. right. exact Hin.
+Qed.
+Lemma spec_slice_ok : forall its l r, forallb vec_ok its = true -> forallb vec_ok (spec_slice its l r) = true.
+Proof.
+  intros its l r H. unfold spec_slice. destruct (_ <=? l); [reflexivity|].
+  apply forallb_firstn. apply forallb_skipn. exact H.
+Qed.
+
+Definition inv (r : res (option vtree)) : Prop :=
+  match r with
+  | Ok (Some v) => vec_ok v = true
+  | Ok None | Err _ => True
+  | Panic _ | OutOfFuel => False
+  end.
+
+Lemma v_slice_ok : forall v a b, vec_ok v = true -> inv (v_slice mem_items ty_size array_slice v a b).
+Proof.
+  intros v a b Hok. destruct v as [| |? [its|]| | |? [p|] [t|]|? buf ?| | | | |]; try exact I; cbn [v_slice].
+  - rewrite array_slice_spec. cbn [spec_slice_opt bind inv vec_ok]. apply spec_slice_ok. exact Hok.
+  - exact Hok.
+  - destruct b as [r|]; [|exact I]. destruct (ty_size t) as [sz|]; [|exact I].
+    destruct (_ || _); [exact I|]. destruct (mem_items _ _ _) as [its|] eqn:E; [|exact I].
+    cbn [inv vec_ok]. exact (mem_items_ok _ _ _ _ E).
+  - cbn [vec_ok] in Hok. apply andb_true_iff in Hok. destruct Hok as [Hok Ho]. apply andb_true_iff in Hok.
+    destruct Hok as [Hb Hbuf]. destruct buf as [| |bm [its|]| | | | | | | | |]; try discriminate Hb.
+    + rewrite array_slice_spec. cbn [spec_slice_opt bind inv vec_ok andb]. cbn [vec_ok] in Hbuf.
+      rewrite (spec_slice_ok its _ _ Hbuf). exact Ho.
+    + cbn [inv vec_ok andb]. exact Ho.
+Qed.
+
+Lemma v_deref_ok : forall v x, vec_ok v = true -> v_deref mem v = Some x -> vec_ok x = true.
+Proof.
+  fix IH 1. intros v x Hok H. destruct v as [| | | |? [[fn inner]|]|? [p|] [t|]| | | | | |]; cbn [v_deref] in H; try discriminate H.
+  - cbn [vec_ok] in Hok. exact (IH inner x Hok H).
+  - exact (mem_ok _ _ _ H).
+Qed.
+
+Lemma v_canonic_ok : forall v, vec_ok v = true -> vec_ok (v_canonic v) = true.
+Proof.
+  intros v Hok. destruct v; cbn [v_canonic]; try exact Hok; cbn [vec_ok] in *;
+    try (apply andb_true_iff in Hok; exact (proj2 Hok)).
+Qed.
+
+(* HEADLINE: for every expression, on a root and a memory whose vectors are well-built, evaluation returns a
+   value, no result, or an error - never a panic - and the value returned is again well-built *)
+Theorem eval_inv : forall e root, vec_ok root = true -> inv (EVAL e root).
+Proof.
+  intros e root Hroot. unfold eval.
+  induction e as [p|ty n|e1 IH fn|e1 IH l|e1 IH a b|e1 IH|e1 IH|e1 IH]; cbn [eval_gen].
+  - exact Hroot.
+  - destruct (ptr_type ty); [reflexivity|exact I].
+  - destruct (eval_gen _ _ _ _ _ _ e1 root) as [[v|]| | |]; try exact IH; try exact I. cbn [bind omap inv] in *.
+    destruct (v_field v (fname_text fn)) as [x|] eqn:E; [|exact I]. exact (v_field_ok v _ x IH E).
+  - destruct (eval_gen _ _ _ _ _ _ e1 root) as [[v|]| | |]; try exact IH; try exact I. cbn [bind omap inv] in *.
+    destruct (v_index float_eq v l) as [x|] eqn:E; [|exact I]. exact (v_index_ok v _ x IH E).
+  - destruct (eval_gen _ _ _ _ _ _ e1 root) as [[v|]| | |]; try exact IH; try exact I. cbn [bind inv] in *.
+    apply v_slice_ok. exact IH.
+  - destruct (eval_gen _ _ _ _ _ _ e1 root) as [[v|]| | |]; try exact IH; try exact I. cbn [bind omap inv] in *.
+    destruct (v_deref mem v) as [x|] eqn:E; [|exact I]. exact (v_deref_ok v x IH E).
+  - destruct (eval_gen _ _ _ _ _ _ e1 root) as [[v|]| | |]; try exact IH; try exact I. cbn [bind omap inv] in *.
+    unfold v_address. destruct (m_addr (vmeta v)); [reflexivity|exact I].
+  - destruct (eval_gen _ _ _ _ _ _ e1 root) as [[v|]| | |]; try exact IH; try exact I. cbn [bind omap inv] in *.
+    apply v_canonic_ok. exact IH.
+Qed.
+
+Theorem eval_no_panic : forall e root, vec_ok root = true -> is_panic (EVAL e root) = false.
+Proof.
+  intros e root H. pose proof (eval_inv e root H) as Hi. destruct (EVAL e root) as [[v|]| | |]; try reflexivity. destruct Hi.
+Qed.
+
+End EvalTotal.
+
+(* without slices there is no hypothesis at all (kept from before the repair) *)
 Fixpoint has_slice (e : dqe) : bool :=
   match e with
   | Var _ | PtrCast _ _ => false
@@ -1289,3 +1416,9 @@ Proof.
     try (specialize (IH H); destruct (eval_gen _ _ _ _ _ _ e1 root); try discriminate IH; reflexivity).
   destruct (ptr_type ty); reflexivity.
 Qed.
+
+(* a value without any vector is trivially well-built: arrays, structs, maps of scalars ... *)
+Example vec_ok_example : vec_ok w_arr = true /\
+  vec_ok (VVec no_meta (VArray no_meta (Some [w_s 1; w_s 2])) []) = true /\
+  vec_ok (VVec no_meta (w_s 1) []) = false.
+Proof. repeat split; reflexivity. Qed.
